@@ -101,6 +101,17 @@ def observe(ctx, r, v, ref, hist, opname):
         return bad('v == list is False', 'eq')
     if l and (v == l[:-1] or v == l[::-1] and l != l[::-1]):
         return bad('v equals a different list', 'eq')
+    if len(l) >= 2:
+        # equality with another *Variables* object is ordered too (a Variables is both a Sequence and a Set)
+        rot = l[1:] + l[:1]
+        for other, name in ((rot, 'rotated'), (l[::-1], 'reversed')):
+            if other != l:
+                w = Variables(other)
+                if (v == w) or not (v != w) or (w == v):
+                    return bad(f'v == Variables({name} list) is True', 'eq', f'not (v == Variables({other!r})) and (v != Variables({other!r}))')
+        w = Variables(l)
+        if not (v == w) or (v != w):
+            return bad('v != Variables(same list)', 'eq', 'v == Variables(L)')
     for x in ALPHA + EXTRA_NEW:
         y = alias(r, x)
         exp = x in l
@@ -161,7 +172,7 @@ def one_history(ctx, r, nops, lines, expect, speclines, meta):
     lines.append('clear'); expect.append('ok ' + state(v)); speclines.append('ok '); meta.append(('clear', tuple()))
     for _ in range(r.randint(1, nops)):
         k = r.choice(['append', 'append', 'append', 'appendnone', 'pop', 'relabel', 'relabel', 'relabel', 'relabelints', 'remove',
-                      'relabel_absent', 'extend'])
+                      'relabel_absent', 'extend', 'extend_range'])
         before = state(v)
         ok = True
         try:
@@ -173,6 +184,28 @@ def one_history(ctx, r, nops, lines, expect, speclines, meta):
                 x = r.choice(ALPHA); p = r.random() < .5
                 lines.append(f'append {lab(x)} {int(p)}'); hist.append(f'v._extend([{x!r}], permissive={p})')
                 sok = ref.append(x, p); v._extend([x], permissive=p)
+            elif k == 'extend_range':
+                # a range object starting at / around the current length (the natural "add n more integer variables" call)
+                n0 = len(ref.l); a = r.choice([n0, n0, n0, max(0, n0 - 1), n0 + 1, 0]); b = a + r.randint(0, 4); p = r.random() < .5
+                hist.append(f'v._extend(range({a}, {b}), permissive={p})')
+                w = v.copy(); sok = True
+                for x in range(a, b):
+                    lines.append(f'append {lab(x)} {int(p)}')
+                    one = ref.append(x, p)
+                    try:
+                        w._append(x, permissive=p)
+                    except ValueError:
+                        pass
+                    if x != b - 1 and one:
+                        expect.append('ok ' + state(w)); speclines.append('ok ' + ','.join(lab(y) for y in ref.l)); meta.append((k, tuple(hist)))
+                    if not one:
+                        sok = False
+                        break
+                if a == b:
+                    lines.append('relabel -'); sok = True
+                elif sok is False and x != b - 1:
+                    pass
+                v._extend(range(a, b), permissive=p)
             elif k == 'appendnone':
                 lines.append('append - 0'); hist.append('v._append()')
                 sok = ref.append(None, False); v._append()
@@ -223,7 +256,7 @@ def one_history(ctx, r, nops, lines, expect, speclines, meta):
             ctx.fail('property', f'Variables.{k}', 'accept/reject', f'call {"returned" if ok else "raised"} but the list semantics {"accepts" if sok else "rejects"} it',
                      repro=repro(hist) + '\nassert False', detail=dict(history=list(hist)))
             return
-        if not ok and state(v) != before:
+        if not ok and state(v) != before and k != 'extend_range':  # _extend is a fold of _append: a raising extend keeps the appended prefix
             ctx.fail('property', f'Variables.{k}', 'changed on raise', f'state changed by a call that raised: {before} -> {state(v)}',
                      repro=repro(hist) + '\nassert False', detail=dict(history=list(hist)))
             return
